@@ -639,6 +639,10 @@ Pull(c, a) ==
                   IF o.st = "new" THEN Ev(c1, o.body)
                   ELSE Rt([c1 EXCEPT !.kont = o.kont \o @], VBot))     \* value of the `yield` expression: not said
       [] o.k \in {"each", "keep"} -> Pull(Push(c, [k |-> "adapt", a |-> a]), o.src)
+      \* docs: iterator.zip -- pairs of corresponding values, until either input ends; iterator.chain -- the first input's
+      \* values, then the second's.  The second input of zip is asked only when the first has given a value.
+      [] o.k = "zip" -> Pull(Push(c, [k |-> "zipa", a |-> a]), o.src)
+      [] o.k = "chain" -> (IF o.ph = "a" THEN Pull(Push(c, [k |-> "chaina", a |-> a]), o.src) ELSE Pull(c, o.src2))
 
 (* Make an iterator object address for an iterable value; [ok, c, a]. *)
 AsIter(c, v) ==
@@ -647,7 +651,7 @@ AsIter(c, v) ==
          IF ~mi.ok \/ (v.t = "ref" /\ c.store[v.v].k = "map" /\ c.store[v.v].meta # <<>>) THEN [ok |-> FALSE]
          ELSE [ok |-> TRUE, c |-> Alloc(c, [k |-> "it", it |-> mi.it]), a |-> NewAddr(c)]
 
-IterMethods == {"next", "each", "keep", "to_tuple", "to_list", "count", "sum", "iter", "fold"}
+IterMethods == {"next", "each", "keep", "to_tuple", "to_list", "count", "sum", "iter", "fold", "zip", "chain"}
 
 IterMethod(c, node, recv, args) ==
     LET m == node.m
@@ -659,6 +663,10 @@ IterMethod(c, node, recv, args) ==
               [] m \in {"each", "keep"} ->
                     (IF args[1].t # "fn" THEN Unspec(c, "adaptor-functor-kind")
                      ELSE Rt(Alloc(ai.c, [k |-> m, src |-> ai.a, f |-> args[1], site |-> node.id]), VItr(NewAddr(ai.c))))
+              [] m \in {"zip", "chain"} ->
+                    (LET bi == IF IsBot(args[1]) THEN [ok |-> FALSE] ELSE AsIter(ai.c, args[1]) IN
+                     IF ~bi.ok THEN Unspec(c, "adaptor-operand-kind")
+                     ELSE Rt(Alloc(bi.c, [k |-> m, src |-> ai.a, src2 |-> bi.a, ph |-> "a", site |-> node.id]), VItr(NewAddr(bi.c))))
               [] m \in {"to_tuple", "to_list", "count", "sum"} ->
                     Pull(Push(ai.c, [k |-> "collect", m |-> m, acc |-> <<>>, a |-> ai.a, site |-> node.id]), ai.a)
               [] m = "fold" ->
@@ -1246,6 +1254,18 @@ Return(c, v) ==
              ELSE IF v.t # "bool" THEN Unspec(c, "keep-non-bool")      \* docs: the predicate returns a Bool
              ELSE IF v.v THEN Rt(c0, SigOut(f.v))
              ELSE Pull(Push(c0, [k |-> "adapt", a |-> f.a]), c0.store[f.a].src))
+      [] f.k = "zipa" ->
+            (IF v.t = "end" THEN Rt(c0, SigEnd)
+             ELSE IF v.t = "out" THEN Pull(Push(c0, [k |-> "zipb", a |-> f.a, v |-> v.v]), c0.store[f.a].src2)
+             ELSE Unspec(c, "pull-signal"))
+      [] f.k = "zipb" ->
+            (IF v.t = "end" THEN Rt(c0, SigEnd)
+             ELSE IF v.t = "out" THEN Rt(c0, SigOut(VTup(<<f.v, v.v>>)))
+             ELSE Unspec(c, "pull-signal"))
+      [] f.k = "chaina" ->
+            (IF v.t = "out" THEN Rt(c0, v)
+             ELSE IF v.t = "end" THEN Pull([c0 EXCEPT !.store[f.a].ph = "b"], c0.store[f.a].src2)
+             ELSE Unspec(c, "pull-signal"))
       [] f.k = "genb" ->
             \* the generator's body has returned: the generator is exhausted
             Rt([c0 EXCEPT !.store[f.a].st = "done", !.env = f.env], SigEnd)
